@@ -52,6 +52,9 @@ var classOwners = map[string][]string{
 	"BYTES_WITH_ERROR": {"C04", "C14"}, "NEGATIVE_ACCEPTED": {"C04", "C05", "C14"}, "SKIP_BEYOND_END": {"C04", "C14"}, "CONSUMED_NE_REPORTED": {"C04", "C14"},
 	// codec classes (C01), skip classes (C02/C08)
 	"WIRE_MISMATCH": {"C01"}, "VALUE_MISMATCH": {"C01"}, "READ_ERROR": {"C01"}, "WRITE_ERROR": {"C01"}, "CONSUMED_LEN": {"C01"}, "LENGTH_MISMATCH": {"C01"},
+	// a call that should have failed but succeeded is an acceptance problem, not an
+	// error-classification problem
+	"ERR_MISSING": {"C01", "C02", "C08", "C12"},
 	"SKIP_LEN": {"C02", "C08"}, "SKIP_BYTES": {"C02", "C08"}, "REJECTED_VALID": {"C02", "C08"}, "READ_AHEAD": {"C02", "C08"}, "SKIP_STREAM_DESYNC": {"C02"},
 	// region-list-model classes of the buffered writer
 	"SINK_MISMATCH": {"C05", "C14"}, "SINK_NOT_PREFIX": {"C05", "C14"}, "WRITTENLEN": {"C05", "C14"}, "REGION_LEN": {"C05", "C14"},
